@@ -33,6 +33,12 @@ type Finding struct {
 	Observed []string   `json:"observed,omitempty"`
 }
 
+type PathSample struct {
+	Vector  []inputRec `json:"vector"`
+	Reached []string   `json:"reached"`
+	End     string     `json:"end"`
+}
+
 type pathEnd struct{ reason string }
 type goPanic struct {
 	val  Value
@@ -117,7 +123,11 @@ type Exec struct {
 	forced      map[string]int
 	forcedEx    map[string]string
 	curSite     string
+	params      map[string]int
+	wantSamples int
+	PathSamples []PathSample
 	forcedPath  map[string]int
+	pathReached []string
 	uniqTried   map[*Term]bool
 	Uniq        int
 }
@@ -909,6 +919,7 @@ func (e *Exec) resetPath() {
 		e.unwind = 100000
 	}
 	e.aliases = nil
+	e.pathReached = nil
 	e.forcedPath = nil
 	e.uniqTried = nil
 	e.objN = e.initDone
@@ -932,10 +943,14 @@ func (e *Exec) runPath(h *ssa.Function) (end string) {
 			case pathEnd:
 				end = x.reason
 				if strings.HasPrefix(x.reason, "UNWIND") || x.reason == "INSTR-BUDGET" {
-					e.record("unwind", x.reason, "")
+					if e.s == nil || e.s.Check() == "sat" {
+						e.record("unwind", x.reason, "")
+					}
 				}
 			case *goPanic:
-				e.record("panic", "panic: "+describePanic(x.val), x.site)
+				if e.s == nil || e.s.Check() == "sat" {
+					e.record("panic", "panic: "+describePanic(x.val), x.site)
+				}
 				end = "panic"
 			default:
 				panic(r)
@@ -943,6 +958,11 @@ func (e *Exec) runPath(h *ssa.Function) (end string) {
 		}
 	}()
 	e.callFn(h, nil, nil)
+	if e.s != nil && len(e.PathSamples) < e.wantSamples {
+		if e.s.Check() == "sat" {
+			e.PathSamples = append(e.PathSamples, PathSample{Vector: e.vector(), Reached: append([]string{}, e.pathReached...), End: "ok"})
+		}
+	}
 	return "ok"
 }
 
